@@ -60,7 +60,19 @@ let do_shist gsz dsz toks =
   let st = ref s_init in
   let handles = ref [||] in
   let push p = handles := Array.append !handles [|p|] in
+  (* the ghost history of Alloc/StackModel.v (the object of C12_stack_histories) runs alongside:
+     it must accept the history (well-formed) and stay in the same allocator state *)
+  let gh = ref (Some hs_init) in
+  let ghost o = match !gh with
+    | Some h -> gh := sstep oracle gsz dsz h o
+    | None -> () in
   Stdlib.List.iter (fun tok ->
+      (match tok.[0] with
+       | 's' -> Scanf.sscanf tok "s%d:%s" (fun w n -> ghost (SGet (ni w, zs n)))
+       | 'r' -> Scanf.sscanf tok "r%d:%d" (fun w h -> ghost (SRel (ni w, (!handles).(h))))
+       | 'd' -> Scanf.sscanf tok "d%d" (fun w -> ghost (DGet (ni w)))
+       | 'e' -> Scanf.sscanf tok "e%d:%d" (fun w h -> ghost (DRel (ni w, (!handles).(h))))
+       | _ -> ());
       match tok.[0] with
       | 's' -> Scanf.sscanf tok "s%d:%s" (fun w n ->
                  match stack_get oracle gsz !st (ni w) (zs n) with
@@ -86,6 +98,10 @@ let do_shist gsz dsz toks =
       | 'e' -> Scanf.sscanf tok "e%d:%d" (fun w h ->
                  st := desc_release !st (ni w) (!handles).(h); Buffer.add_string b " e")
       | _ -> Buffer.add_string b " badop") toks;
+  (match !gh with
+   | Some h when h.hs_st = !st -> ()
+   | Some _ -> Buffer.add_string b " ghost-state-differs"
+   | None -> Buffer.add_string b " history-not-well-formed");
   Buffer.add_string b (regs_str (!st).s_fl.fl_regs);
   Buffer.contents b
 
